@@ -44,7 +44,24 @@ func relate(t *rapid.T, b ref.Box, spatial bool) ref.Box {
 	r.X = axisMap(t, "mx", b.H, b.X, r.H)
 	r.Y = axisMap(t, "my", b.H, b.Y, r.H)
 	r.F = axisMap(t, "mf", b.V, b.F, r.V)
-	switch rapid.IntRange(0, 5).Draw(t, "perturb") {
+	switch rapid.IntRange(0, 6).Draw(t, "perturb") {
+	case 6:
+		// an index that differs in one high bit only (packing / truncation of indices into fewer bits)
+		k := uint(rapid.IntRange(3, 34).Draw(t, "bit"))
+		switch rapid.IntRange(0, 2).Draw(t, "bitAxis") {
+		case 0:
+			if int64(k) < r.H {
+				r.X ^= int64(1) << k
+			}
+		case 1:
+			if int64(k) < r.H {
+				r.Y ^= int64(1) << k
+			}
+		default:
+			if int64(k) < r.V-1 {
+				r.F ^= int64(1) << k
+			}
+		}
 	case 0:
 		r.X += rapid.SampledFrom([]int64{-1, 1}).Draw(t, "px")
 	case 1:
@@ -94,7 +111,41 @@ func genC05(t *rapid.T) *CaseC05 {
 	if rapid.IntRange(0, 2).Draw(t, "pair") > 0 {
 		na, nb = 1, 1
 	}
+	long := rapid.IntRange(0, 119).Draw(t, "long") == 0
+	if long {
+		// long lists: implementations may switch strategy beyond a size threshold
+		na = rapid.SampledFrom([]int{33, 64, 65, 100, 129}).Draw(t, "naLong")
+		nb = rapid.IntRange(1, 3).Draw(t, "nbLong")
+	}
 	for i := 0; i < na; i++ {
+		if long && i > 0 {
+			// same-zoom variants of the first entry that differ in one bit of one index
+			b := c.A[0]
+			k := uint(rapid.IntRange(0, 34).Draw(t, "vbit"))
+			switch rapid.IntRange(0, 2).Draw(t, "vaxis") {
+			case 0:
+				if int64(k) < b.H {
+					b.X ^= int64(1) << k
+				}
+			case 1:
+				if int64(k) < b.H {
+					b.Y ^= int64(1) << k
+				}
+			default:
+				if int64(k)+1 < b.V {
+					b.F ^= int64(1) << k
+				}
+			}
+			ok := b.Valid()
+			if c.Spatial {
+				ok = spatialValid(b)
+			}
+			if !ok {
+				b = c.A[0]
+			}
+			c.A = append(c.A, b)
+			continue
+		}
 		if i == 0 || rapid.Bool().Draw(t, "freshA") {
 			if c.Spatial {
 				c.A = append(c.A, genSpatialBox(t, "a"))
@@ -165,6 +216,9 @@ func classifyC05(c *CaseC05) (bool, []string) {
 	}
 	if len(c.A) > 1 || len(c.B) > 1 {
 		cl = append(cl, "array-form")
+	}
+	if len(c.A) >= 33 {
+		cl = append(cl, "long-list")
 	}
 	return nt, uniq(cl)
 }
@@ -242,7 +296,7 @@ func checkC05(c *CaseC05, fl *Fails) {
 		}
 	}
 	// single pair form and disjunction
-	if len(c.A)*len(c.B) <= 16 {
+	if len(c.A)*len(c.B) <= 16 || (len(c.A) > 30 && len(c.B) <= 3) {
 		or := false
 		for _, a := range c.A {
 			for _, b := range c.B {
@@ -259,6 +313,32 @@ func checkC05(c *CaseC05, fl *Fails) {
 		}
 		if !fl.Has() && or != got {
 			fl.Add("disjunction-"+tag, "%s: array form %v but disjunction of pairs %v", desc(), got, or)
+		}
+	}
+	// long lists: every single entry of the first list must be found again (nothing dropped by an internal shortcut)
+	if len(c.A) >= 33 {
+		// candidates: entries that differ from the first one in a high bit (>= 2^20) of an index - the ones a packed
+		// or truncated internal key would confuse - at most 24 of them, plus every 16th entry
+		var cand []int
+		for i := len(c.A) - 1; i >= 1; i-- {
+			d := (c.A[i].X ^ c.A[0].X) | (c.A[i].Y ^ c.A[0].Y) | (c.A[i].F ^ c.A[0].F)
+			if (d >= 1<<20 && len(cand) < 24) || i%16 == 0 {
+				cand = append(cand, i)
+			}
+		}
+		cand = append(cand, 0)
+		for _, i := range cand {
+			a := c.A[i]
+			r, err := c05Call(c.Spatial, c.A, []ref.Box{a})
+			if err != nil || !r {
+				fl.Add("entry-lost-"+tag, "%s: entry %d (%s) of the first list does not overlap the list itself (%v, %v)", desc(), i, a.Ext(), r, err)
+				break
+			}
+			r, err = c05Call(c.Spatial, []ref.Box{a}, c.A)
+			if err != nil || !r {
+				fl.Add("entry-lost-"+tag, "%s: entry %d (%s) of the second list is not found (%v, %v)", desc(), i, a.Ext(), r, err)
+				break
+			}
 		}
 	}
 	// differential: both implementations on the same h = v inputs
@@ -338,7 +418,7 @@ func sweepC05(tier string, emit func(*CaseC05)) {
 func init() {
 	register(PropT[CaseC05]{
 		ID:   "C05",
-		Rule: "rapid: lists A,B (0..4 each, two thirds single pairs); B drawn as axis-wise relatives of A (descendant/ancestor per axis at zoom +-4, then one axis optionally shifted by +-1: near misses) or unrelated; extended form at any zooms, single-zoom form on its documented domain (z>=1, -2^(z-1)<=f<2^(z-1), including z=26..35). Sweep: all pairs at zooms<=2 (reduced grid) in both forms, all pairs of ground-level columns at z=24..28, empty-list combinations. Non-trivial: some pair has different zooms on an axis and (f<0 or v>25 or the answer is true).",
+		Rule: "rapid: lists A,B (0..4 each, two thirds single pairs; 0.8% with a first list of 33..129 same-zoom single-bit variants, every entry of which must be found again); B drawn as axis-wise relatives of A (descendant/ancestor per axis at zoom +-4, then one axis optionally shifted by +-1 or changed in one high bit: near misses, packing collisions) or unrelated; extended form at any zooms, single-zoom form on its documented domain (z>=1, -2^(z-1)<=f<2^(z-1), including z=26..35). Sweep: all pairs at zooms<=2 (reduced grid) in both forms, all pairs of ground-level columns at z=24..28, empty-list combinations. Non-trivial: some pair has different zooms on an axis and (f<0 or v>25 or the answer is true).",
 		Assumptions: []string{
 			"oracle: ancestor-or-equal on x, y and f (floor ancestors) in integer arithmetic; answers compared exactly",
 			"single-zoom form restricted to the altitude range the function documents (+-2^24 m)",
